@@ -61,5 +61,31 @@ fn vk_{short}_reset_fresh<const P: usize, const K: usize>() {{
 // @harness vk_{short}_reset_fresh_p3 props=C04 kind=bounded(period=3,history=7) tier=thorough
 #[kani::proof] #[kani::unwind(10)] fn vk_{short}_reset_fresh_p3() {{ vk_{short}_reset_fresh::<3, 7>() }}
 '''
+    inits = ''.join('%s: kani::any(), ' % f for f in flds)
+    cmp_ = ''.join('    assert!(c.%s.to_bits() == m.%s.to_bits());' % (f, f) + chr(10) for f in flds)
+    out += f'''
+// derived Clone is a deep copy (any field values): fieldwise bit-equal, distinct buffer allocation, and feeding the clone
+// leaves every slot of the original untouched
+fn vk_{short}_clone_deep<const P: usize>() {{
+    let a: [f64; P] = kani::any();
+    let index: usize = kani::any();
+    kani::assume(index < P);
+    let count: usize = kani::any();
+    kani::assume(count <= P && (count == P || index == count));
+    let m = {ty} {{ period: P, index, count, {inits}deque: Box::new(a) }};
+    let mut c = m.clone();
+    assert!(c.period == m.period && c.index == m.index && c.count == m.count);
+{cmp_}    let mut before = [0u64; P];
+    let mut i = 0;
+    while i < P {{ assert!(c.deque[i].to_bits() == m.deque[i].to_bits()); before[i] = m.deque[i].to_bits(); i += 1; }}
+    assert!(c.deque.as_ptr() != m.deque.as_ptr());
+    {feed.replace('ind.', 'c.')}
+    let mut j = 0;
+    while j < P {{ assert!(m.deque[j].to_bits() == before[j]); j += 1; }}
+    assert!(m.index == index && m.count == count);
+}}
+// @harness vk_{short}_clone_deep_p2 props=C05 kind=bounded(period=2) tier=quick
+#[kani::proof] #[kani::unwind(6)] fn vk_{short}_clone_deep_p2() {{ vk_{short}_clone_deep::<2>() }}
+'''
     open(os.path.join(here, mod + '.rs'), 'w').write(out)
     print(mod)
